@@ -1578,7 +1578,105 @@ func (g *factGraph) condFacts() {
 			}
 		}
 	}
+	g.distinctByteFacts()
 	g.resolvePending()
+}
+
+// distinctByteFacts: two dominating conditions base[a] == K1 and base[b] == K2 with K1 ≠ K2 on the same
+// immutable-in-this-function byte sequence imply a ≠ b; when one index is a constant that is an end point of
+// what is known about the other, the bound is tightened (text[i] == '/' ∧ text[0] == '+' ∧ i ≥ 0 ⇒ i ≥ 1).
+func (g *factGraph) distinctByteFacts() {
+	type byteEq struct {
+		base ssa.Value
+		idx  ssa.Value
+		k    int64
+	}
+	var eqs []byteEq
+	for _, cd := range g.conds {
+		bo, ok := cd.V.(*ssa.BinOp)
+		if !ok || !((bo.Op == token.EQL && cd.True) || (bo.Op == token.NEQ && !cd.True)) {
+			continue
+		}
+		k, isK := constInt(bo.Y)
+		x := bo.X
+		if !isK {
+			k, isK = constInt(bo.X)
+			x = bo.Y
+		}
+		if !isK {
+			continue
+		}
+		var base, idx ssa.Value
+		switch l := x.(type) {
+		case *ssa.UnOp:
+			if ia, ok := l.X.(*ssa.IndexAddr); ok && l.Op == token.MUL {
+				base, idx = ia.X, ia.Index
+			}
+		case *ssa.Lookup:
+			if isStringType(l.X.Type()) {
+				base, idx = l.X, l.Index
+			}
+		case *ssa.Index:
+			base, idx = l.X, l.Index
+		}
+		if base == nil {
+			continue
+		}
+		if _, isSlice := base.Type().Underlying().(*types.Slice); isSlice && !noElementStores(cd.At.Parent()) {
+			continue
+		}
+		eqs = append(eqs, byteEq{base, idx, k})
+	}
+	for i := 0; i < len(eqs); i++ {
+		for j := 0; j < len(eqs); j++ {
+			a, b := eqs[i], eqs[j]
+			if i == j || a.k == b.k || g.e.canonAny(a.base) != g.e.canonAny(b.base) {
+				continue
+			}
+			ka, ok := constInt(a.idx)
+			if !ok {
+				continue
+			}
+			if _, bothConst := constInt(b.idx); bothConst {
+				continue
+			}
+			bt := g.e.termOf(b.idx)
+			g.touch(bt, 1)
+			lo := -g.shortest(bt, zeroT) // bt ≥ lo
+			hi := g.shortest(zeroT, bt)  // bt ≤ hi
+			if r := g.e.rng(b.idx); r.lo > lo {
+				lo = r.lo
+			}
+			if lo == ka {
+				g.add(bt, zeroT, -(ka + 1))
+			}
+			if hi == ka {
+				g.add(zeroT, bt, ka-1)
+			}
+		}
+	}
+}
+
+// noElementStores: f never stores through an element address of a slice and never calls copy — the byte
+// sequences it reads cannot change between two of its loads (callees receiving them are a separate matter:
+// only argument-pure repo callees and dependency readers occur here, checked by argPure where used).
+func noElementStores(f *ssa.Function) bool {
+	ok := true
+	eachInstr(f, func(_ *ssa.BasicBlock, _ int, in ssa.Instruction) {
+		switch x := in.(type) {
+		case *ssa.Store:
+			if ia, isIA := x.Addr.(*ssa.IndexAddr); isIA {
+				if _, isSlice := ia.X.Type().Underlying().(*types.Slice); isSlice {
+					ok = false
+				}
+			}
+		case *ssa.Call:
+			if b, isB := x.Call.Value.(*ssa.Builtin); isB && b.Name() == "copy" {
+				ok = false
+			}
+		}
+	})
+	return ok
 }
 
 // resolvePending: narrow-typed x ± y whose no-wrap condition follows from the path facts.
@@ -1740,6 +1838,39 @@ func (e *E3) proveLE(at *ssa.BasicBlock, a, b termT, c int64, depth int) bool {
 			all := true
 			for i, ed := range phi.Edges {
 				if !e.proveOnEdge(phi.Block().Preds[i], phi.Block(), a, termT{v: e.lenBase(ed), len: true}, c, depth+1) {
+					all = false
+					break
+				}
+			}
+			if all {
+				return true
+			}
+		}
+	}
+	// join of forward edges (case 34, 38: / case 41: fallthrough; case 45:): the fact holds at the join when it
+	// holds on every incoming edge. Sound for SSA values defined above the join; values defined in the join
+	// block itself (phis) are handled above.
+	if at != nil && len(at.Preds) >= 2 {
+		fwd := true
+		for _, pr := range at.Preds {
+			if at.Dominates(pr) {
+				fwd = false
+			}
+		}
+		definedAbove := func(t termT) bool {
+			if t.v == nil {
+				return true
+			}
+			in, ok := t.v.(ssa.Instruction)
+			if !ok {
+				return true // parameters, constants, globals
+			}
+			return in.Block() != at && in.Block().Dominates(at)
+		}
+		if fwd && definedAbove(a) && definedAbove(b) {
+			all := true
+			for _, pr := range at.Preds {
+				if !e.proveOnEdge(pr, at, a, b, c, depth+1) {
 					all = false
 					break
 				}
